@@ -100,7 +100,10 @@ class C17(Prop):
                                                     "%d %s" % (axis, enc_vals(et, [1.0])[0]), F_AXIS_DDOF, shape, [wl], axis)
                 # quantiles
                 qsets = [[0.5], [0.0, 1.0], [-0.1], [1.5], [0.5, 2.0, -1.0], [0.2, -0.5, 3.0], [], [float("inf")], [-0.0],
-                         [0.5, 1.25, 0.75, -2.0, 0.1, 9.0]]
+                         [0.5, 1.25, 0.75, -2.0, 0.1, 9.0],
+                         # the validity test is exact: the smallest violations on either side are violations
+                         [-2.7755575615628914e-17], [0.5, -2.7755575615628914e-17, 7.0], [-5e-324], [1.0000000000000002],
+                         [0.25, 1.0000000000000002, -5e-324]]
                 for et in ("i64", "n64"):
                     vals = fill("f64" if et == "n64" else "i32", n)
                     for axis in range(len(shape)):
